@@ -201,6 +201,28 @@ def shape_probe(fn, xs, shapes=SHAPES, accept_0d_array=False):
             out.append((sh, f"query of shape {list(sh)} gave shape {list(np.shape(r))}"))
         elif not same(np.ravel(np.asarray(r, dtype=float)), ref[:n]):
             out.append((sh, f"query of shape {list(sh)} is not the element-wise result"))
+        if n < 2:
+            continue
+        # memory layout: the same numbers at the same indices, stored otherwise (what `grid.T`, `np.meshgrid`, slicing and
+        # `np.broadcast_to` hand to a method).  result[idx] must be the value at q[idx] whatever the strides are.
+        layouts = []
+        if len(sh) >= 2:
+            layouts.append(("Fortran-ordered", np.asfortranarray(q)))
+            layouts.append(("transposed view", np.ascontiguousarray(q.T).T))
+        wide = np.zeros(sh[:-1] + (2 * sh[-1],))
+        wide[..., ::2] = q
+        layouts.append(("strided view", wide[..., ::2]))
+        layouts.append(("reversed view", np.ascontiguousarray(q[..., ::-1])[..., ::-1]))
+        for lab, ql in layouts:
+            assert ql.shape == sh and np.array_equal(ql, q, equal_nan=True)
+            keep = ql.copy()
+            rl = fn(ql)
+            if not np.array_equal(ql, keep, equal_nan=True):
+                out.append((sh, f"query of shape {list(sh)} ({lab}) was modified in place"))
+            elif np.shape(rl) != sh:
+                out.append((sh, f"query of shape {list(sh)} ({lab}) gave shape {list(np.shape(rl))}"))
+            elif not same(np.array([np.asarray(rl, dtype=float)[idx] for idx in np.ndindex(*sh)]), ref[:n]):
+                out.append((sh, f"query of shape {list(sh)} given as a {lab} is not the element-wise result (result[idx] must be the value at query[idx])"))
     return out
 
 
